@@ -314,6 +314,9 @@ def run_c05(ctx, fa):  # noqa: F811 - the full C05 check
     ind = independent_files(ctx, fa, 150 if ctx.quick() else 2500)
     core.judge_cases(ctx, ind, "ind", ("C05.",), nontrivial_fn=lambda c: c["nblocks"] >= 1,
                      describe=lambda c: "independent-writer file, %d blocks, codec %s" % (c["nblocks"], proj.uncps(c["codec"])))
+    from . import p_suite
+    if not ctx.quick():
+        p_suite.run(ctx, {"t_file"}, ("C05.",))
     core.judge_cases(ctx, is_avro_cases(ctx, fa, 120 if ctx.quick() else 3000), "isavro", ("C05.",), nontrivial_fn=lambda c: len(c["data"]) >= 4,
                      describe=lambda c: "is_avro(%r)" % bytes(c["data"])[:12])
     ctx.rule += ("; plus spec-generated independent-writer files (any block partition, empty blocks, chunked header map in either count form, codec key "
